@@ -78,6 +78,9 @@ type World struct {
 	Res   *runner.Result
 	Store *simapi.Store
 	Ctrls []*Controller
+	// ExtraState, if set, is state outside the API server (a disk) that counts
+	// towards the quiescence fixpoint of Heal.
+	ExtraState func() string
 }
 
 // Start launches one reconcile task.
@@ -186,8 +189,15 @@ func (w *World) Heal(maxRounds int, between func()) bool {
 	if !w.Drain(5000) {
 		return false
 	}
+	hash := func() string {
+		h := w.Store.StateHash()
+		if w.ExtraState != nil {
+			h += "|" + w.ExtraState()
+		}
+		return h
+	}
 	for round := 0; round < maxRounds; round++ {
-		before := w.Store.StateHash()
+		before := hash()
 		for _, c := range w.Ctrls {
 			if c.Disabled {
 				continue
@@ -201,7 +211,7 @@ func (w *World) Heal(maxRounds int, between func()) bool {
 		if between != nil {
 			between()
 		}
-		if w.Store.StateHash() == before {
+		if hash() == before {
 			return true
 		}
 	}
